@@ -7,7 +7,7 @@ ids = [json.loads(l)["id"] for l in open(os.path.join(ROOT, "properties.jsonl"))
 checks, na, served = [], [], []
 pending = json.load(open(os.path.join(ROOT, "tools", "pending.json")))
 for pid in ids:
-    if os.path.exists(os.path.join(ROOT, "vlib", pid.lower() + ".py")) and pid not in pending.get("withdrawn", {}):
+    if pid in pending["claimed"] and pid not in pending.get("withdrawn", {}):
         p = importlib.import_module("vlib." + pid.lower()).PROP
         served.append(pid)
         checks.append({
@@ -42,4 +42,13 @@ m = {
     "notes": "DESIGN.md describes the approach; known_findings.json lists fixed/open findings; seeded/ holds the independently written breaking changes used to test the checks.",
 }
 json.dump(m, open(os.path.join(ROOT, "MANIFEST.json"), "w"), indent=1)
+# merge per-property known-findings fragments (known/Cxx.json) into the single committed file
+kd = os.path.join(ROOT, "known")
+allk = []
+if os.path.isdir(kd):
+    for f in sorted(os.listdir(kd)):
+        if f.endswith(".json"):
+            allk += json.load(open(os.path.join(kd, f)))["findings"]
+json.dump({"comment": "Known findings. open = genuine defect recorded, not repaired (suppresses exactly its class); fixed = repaired by a fix: commit in /repo (suppresses nothing). Generated from known/*.json by tools/genmanifest.py; never written at run time.",
+           "findings": allk}, open(os.path.join(ROOT, "known_findings.json"), "w"), indent=1)
 print("claimed:", served)
